@@ -55,6 +55,8 @@ pub struct SenderCtl {
 	pub fail_ping: Mutex<Option<String>>,
 	/// number of `send_ping` calls
 	pub pings: AtomicUsize,
+	/// if set, `close()` fails with this text (a broken pipe cannot be closed cleanly either)
+	pub fail_close: Mutex<Option<String>>,
 	/// if set, `receive` is not a single await: after it has taken a message from the peer it keeps its future pending
 	/// for this long before returning it (a transport that assembles a message from several reads). A `receive` future
 	/// that is dropped in that phase loses the message, as with a real fragmented frame.
@@ -137,6 +139,9 @@ impl TransportSenderT for ScriptSender {
 				g.notified().await;
 			}
 			let _ = self.tx.send(ClientOut::Close { ticket: ticket() });
+			if let Some(text) = self.ctl.fail_close.lock().unwrap().clone() {
+				return Err(ScriptError(text));
+			}
 			Ok(())
 		}
 	}
